@@ -253,7 +253,11 @@ func (g *generator) generateFlow(file *file, f *flow, w io.Writer, addImports ma
 	}); err != nil {
 		return err
 	}
-	if _, err := io.WriteString(w, "func() (err error) {\n"); err != nil {
+	// User-provided expressions are evaluated in an outer closure that
+	// declares no identifiers of its own, so that names in those expressions
+	// (e.g. an "err" variable of the enclosing function) keep referring to
+	// the user's variables rather than to the named result below.
+	if _, err := io.WriteString(w, "func() error {\n"); err != nil {
 		return err
 	}
 
@@ -267,6 +271,9 @@ func (g *generator) generateFlow(file *file, f *flow, w io.Writer, addImports ma
 	if err := prologueTmpl.ExecuteTemplate(w, _paramExprTmpl, paramExprs(exprs)); err != nil {
 		return err
 	}
+	if _, err := io.WriteString(w, "return func() (err error) {\n"); err != nil {
+		return err
+	}
 	if _, err := w.Write(b.Bytes()); err != nil {
 		return err
 	}
@@ -278,7 +285,7 @@ func (g *generator) generateFlow(file *file, f *flow, w io.Writer, addImports ma
 		fmt.Fprintf(w, "/*line %v:%d*/", filepath.Base(f.PosInfo.File), endPos.Line-1)
 	}
 
-	if _, err := io.WriteString(w, "}()"); err != nil {
+	if _, err := io.WriteString(w, "}()\n}()"); err != nil {
 		return err
 	}
 	return nil
